@@ -1,0 +1,99 @@
+//go:build verif
+
+// Contracts (machine-checked specifications) for the forwarding controllers, read by /verif's govc.
+// This file contains comments only and compiles to nothing with or without the tag.
+
+package forwarding
+
+// ---------------------------------------------------------------------------------------------
+// The outgoing request carries exactly the user's parameters (C05)
+// ---------------------------------------------------------------------------------------------
+
+//@ macro orbAddr() = bech32(core.ModuleAddress)
+//@ macro destAmount(ta) = ta.destinationCoin.Amount
+//@ macro destDenom(ta) = ta.destinationCoin.Denom
+
+// --- CCTP
+//@ macro cctpReqOK(ta, a) = out_kind == 1 && out_cctp.From == orbAddr() && out_cctp.Amount == destAmount(ta) && out_cctp.BurnToken == destDenom(ta) &&
+//@                          out_cctp.DestinationDomain == a.DestinationDomain && out_cctp.MintRecipient == a.MintRecipient
+//@ macro cctpcReqOK(ta, a) = out_kind == 2 && out_cctpc.From == orbAddr() && out_cctpc.Amount == destAmount(ta) && out_cctpc.BurnToken == destDenom(ta) &&
+//@                          out_cctpc.DestinationDomain == a.DestinationDomain && out_cctpc.MintRecipient == a.MintRecipient && out_cctpc.DestinationCaller == a.DestinationCaller
+
+//@ func (c *CCTPController) executeForwarding(ctx, transferAttr, cctpAttr) (err)
+//@   requires[inv]  c != nil && c.handler != nil && c.handler.CCTPMsgServer != nil
+//@   requires[base] transferAttr != nil && cctpAttr != nil && !isnil(transferAttr.destinationCoin.Amount)
+//@   modifies bank, out_n, out_kind, out_cctp, out_cctpc
+//@   ensures[C05] out_n == old(out_n) + 1
+//@   ensures[C05] len(cctpAttr.DestinationCaller) == 0 ==> cctpReqOK(transferAttr, cctpAttr)
+//@   ensures[C05] len(cctpAttr.DestinationCaller) != 0 ==> cctpcReqOK(transferAttr, cctpAttr)
+
+// --- Hyperlane
+//@ macro hypReqOK(ta, a) = out_kind == 3 && out_hyp.Sender == orbAddr() && out_hyp.Amount == destAmount(ta) &&
+//@                         out_hyp.TokenId == toarray32(a.TokenId) && out_hyp.DestinationDomain == a.DestinationDomain && out_hyp.Recipient == toarray32(a.Recipient) &&
+//@                         out_hyp.GasLimit == a.GasLimit && out_hyp.MaxFee == a.MaxFee && out_hyp.CustomHookMetadata == a.CustomHookMetadata &&
+//@                         (len(a.CustomHookId) == 0 ==> out_hyp.CustomHookId == nil) &&
+//@                         (len(a.CustomHookId) != 0 ==> out_hyp.CustomHookId != nil && deref(out_hyp.CustomHookId) == toarray32(a.CustomHookId))
+
+//@ func (c *HyperlaneController) executeForwarding(ctx, transferAttr, hypAttr, pp) (err)
+//@   requires[inv]  c != nil && c.handler != nil
+//@   requires[base] transferAttr != nil && hypAttr != nil && !isnil(transferAttr.destinationCoin.Amount)
+//@   requires[base] len(hypAttr.TokenId) == 32 && len(hypAttr.Recipient) == 32 && (len(hypAttr.CustomHookId) == 0 || len(hypAttr.CustomHookId) == 32)
+//@   modifies bank, out_n, out_kind, out_hyp
+//@   ensures[C05] out_n == old(out_n) + 1 && hypReqOK(transferAttr, hypAttr)
+
+// --- Internal
+//@ macro sendReqOK(ta, a) = out_kind == 4 && out_send.FromAddress == orbAddr() && out_send.ToAddress == a.Recipient && len(out_send.Amount) == 1 &&
+//@                          out_send.Amount[0].Denom == destDenom(ta) && out_send.Amount[0].Amount == destAmount(ta)
+
+//@ func (c *InternalController) executeForwarding(ctx, transferAttr, intAttr, pp) (err)
+//@   requires[inv]  c != nil && c.handler != nil
+//@   requires[base] transferAttr != nil && intAttr != nil && coinOK(transferAttr.destinationCoin)
+//@   modifies bank, out_n, out_kind, out_send
+//@   ensures[C05] out_n == old(out_n) + 1 && sendReqOK(transferAttr, intAttr)
+
+// --- The controllers: the attributes must be of the controller's own type (anything else is refused
+// with no request sent); on success exactly one request went out and it is built from the packet's
+// attributes and the running coin.
+//@ macro pktAttr(p) = p.Forwarding.Attributes.cachedValue
+//@ macro pktHasAttr(p) = p != nil && p.Forwarding != nil && p.Forwarding.Attributes != nil
+
+//@ macro asCCTP(p) = cast(pktAttr(p), "*types/controller/forwarding.CCTPAttributes")
+//@ func (c *CCTPController) HandlePacket(ctx, packet) (err)
+//@   requires[inv]  c != nil && c.logger != nil && c.handler != nil && c.handler.CCTPMsgServer != nil
+//@   requires[base] packet != nil ==> packet.TransferAttributes != nil && taOK(packet.TransferAttributes)
+//@   modifies bank, events, out_n, out_kind, out_cctp, out_cctpc
+//@   ensures[C05] err == nil ==> pktHasAttr(packet) && istype(pktAttr(packet), "*types/controller/forwarding.CCTPAttributes") && asCCTP(packet) != nil && out_n == old(out_n) + 1
+//@   ensures[C05] err == nil && len(asCCTP(packet).DestinationCaller) == 0 ==> cctpReqOK(packet.TransferAttributes, asCCTP(packet))
+//@   ensures[C05] err == nil && len(asCCTP(packet).DestinationCaller) != 0 ==> cctpcReqOK(packet.TransferAttributes, asCCTP(packet))
+//@   ensures[C05] !(pktHasAttr(packet) && istype(pktAttr(packet), "*types/controller/forwarding.CCTPAttributes")) ==> err != nil && out_n == old(out_n) && bank == old(bank)
+//@   ensures[C05] out_n <= old(out_n) + 1
+
+//@ macro asHyp(p) = cast(pktAttr(p), "*types/controller/forwarding.HypAttributes")
+//@ func (c *HyperlaneController) HandlePacket(ctx, packet) (err)
+//@   requires[inv]  c != nil && c.logger != nil && c.handler != nil
+//@   requires[base] packet != nil ==> packet.TransferAttributes != nil && taOK(packet.TransferAttributes)
+//@   modifies bank, events, out_n, out_kind, out_hyp
+//@   ensures[C05] err == nil ==> pktHasAttr(packet) && istype(pktAttr(packet), "*types/controller/forwarding.HypAttributes") && asHyp(packet) != nil && out_n == old(out_n) + 1
+//@   ensures[C05] err == nil ==> hypReqOK(packet.TransferAttributes, asHyp(packet))
+//@   ensures[C05] !(pktHasAttr(packet) && istype(pktAttr(packet), "*types/controller/forwarding.HypAttributes")) ==> err != nil && out_n == old(out_n) && bank == old(bank)
+//@   ensures[C05] out_n <= old(out_n) + 1
+
+//@ macro asInt(p) = cast(pktAttr(p), "*types/controller/forwarding.InternalAttributes")
+//@ func (c *InternalController) HandlePacket(ctx, packet) (err)
+//@   requires[inv]  c != nil && c.logger != nil && c.handler != nil
+//@   requires[base] packet != nil ==> packet.TransferAttributes != nil && taOK(packet.TransferAttributes)
+//@   modifies bank, events, out_n, out_kind, out_send
+//@   ensures[C05] err == nil ==> pktHasAttr(packet) && istype(pktAttr(packet), "*types/controller/forwarding.InternalAttributes") && asInt(packet) != nil && out_n == old(out_n) + 1
+//@   ensures[C05] err == nil ==> sendReqOK(packet.TransferAttributes, asInt(packet))
+//@   ensures[C05] !(pktHasAttr(packet) && istype(pktAttr(packet), "*types/controller/forwarding.InternalAttributes")) ==> err != nil && out_n == old(out_n) && bank == old(bank)
+//@   ensures[C05] out_n <= old(out_n) + 1
+
+// --- The controllers register under their own protocol identifier.
+//@ func NewCCTPController(logger, msgServer) (result, err)
+//@   ensures[C05] err == nil ==> result != nil && result.BaseController != nil && result.BaseController.id == core.PROTOCOL_CCTP && result.handler != nil && result.handler.CCTPMsgServer != nil && result.logger != nil
+
+//@ func NewHyperlaneController(logger, handler) (result, err)
+//@   ensures[C05] err == nil ==> result != nil && result.BaseController != nil && result.BaseController.id == core.PROTOCOL_HYPERLANE && result.handler != nil && result.logger != nil
+
+//@ func NewInternalController(logger, handler) (result, err)
+//@   ensures[C05] err == nil ==> result != nil && result.BaseController != nil && result.BaseController.id == core.PROTOCOL_INTERNAL && result.handler != nil && result.logger != nil
